@@ -82,6 +82,24 @@ type Machine struct {
 	urls       map[string]*urlDecl
 	urlOrigin  map[*value]*urlOrigin
 	c19s       *c19State
+	xsolver    *Solver // second solver (thorough tier): cross-checks every unsat verdict
+}
+
+// crossUnsat asks the second solver whether pc ∧ extra is really unsatisfiable.
+// It returns false only when the second solver finds it satisfiable (a disagreement).
+func (m *Machine) crossUnsat(extra *Term) bool {
+	if m.xsolver == nil || m.xsolver.dead {
+		return true
+	}
+	x := m.xsolver
+	x.Reset()
+	for _, p := range m.pc {
+		x.Assert(p)
+	}
+	x.Assert(extra)
+	r := x.Check()
+	m.ex.noteCross(r)
+	return r != Sat
 }
 
 func (m *Machine) freshName(prefix string) string {
@@ -162,6 +180,12 @@ func (m *Machine) decideN(conds []*Term) int {
 		switch m.solver.CheckWith(c) {
 		case Sat:
 			feas = append(feas, i)
+		case Unsat:
+			if m.ex.crossBudget() && !m.crossUnsat(c) {
+				m.hasUnknown = true
+				m.ex.noteUnknown("solver-disagreement(feasibility)")
+				feas = append(feas, i)
+			}
 		case Unknown:
 			m.hasUnknown = true
 			m.ex.noteUnknown("feasibility")
